@@ -15,6 +15,8 @@ TP = "grin_pool::transaction_pool::TransactionPool::"
 
 
 def run(c):
+    import r9
+    c.r9("C13")
     CL = P + "process_block@txhashset::txhashset::extending"
     c.r1("maturity-after-fork-rewind", CL, P + "rewind_and_apply_fork", sink=P + "verify_coinbase_maturity", via=2)
     c.r1("maturity-before-utxo", CL, P + "verify_coinbase_maturity", sink=P + "validate_utxo", via=2)
